@@ -561,6 +561,65 @@ static void other_scenarios()
                                      }});
         }
     }
+    // appending a stream's own content (source inside the buffer that has to grow), stack- and heap-backed
+    for (size_t pre : {size_t(200), size_t(300), size_t(600)})
+        for (int how = 0; how < 3; ++how) {
+            static const char *HN[3] = {"append(own raw_buffer(), size())", "append(own raw_buffer() + 10, size() - 10)", "<< own raw_buffer() [C string]"};
+            g_scn.push_back(Scenario{vf::strf("string_stream[%zu].%s", pre, HN[how]), [=](vf::Outcome &oc) {
+                                         std::string pv(pre, 'p');
+                                         for (size_t k = 0; k < pre; ++k) pv[k] = (char)('a' + k % 23);
+                                         ST::string_stream ss;
+                                         SETUP(ss.append(pv.data(), pv.size()));
+                                         oc = vf::guard([&] {
+                                             if (how == 0) LIB(ss.append(ss.raw_buffer(), ss.size()));
+                                             else if (how == 1) LIB(ss.append(ss.raw_buffer() + 10, ss.size() - 10));
+                                             else LIB(ss.append(ss.raw_buffer(), pre));
+                                         });
+                                         std::string pr;
+                                         if (!oc.ok()) pr = stream_problem(ss, pv);
+                                         else if (std::string(ss.raw_buffer(), ss.size()) != pv + (how == 1 ? pv.substr(10) : pv)) pr = "wrong content after appending the stream to itself";
+                                         LIB(ss.~string_stream(); new (&ss) ST::string_stream());
+                                         return pr;
+                                     }});
+        }
+    // streams that throw on badbit (exceptions mask): a library allocation that fails during an insertion still comes out as
+    // std::bad_alloc - the stream's own reporting must not replace it
+    {
+        struct NarX : std::streambuf {
+            char area[4096];
+            NarX() { setp(area, area + sizeof area); }
+        };
+        struct WidX : std::wstreambuf {
+            wchar_t area[4096];
+            WidX() { setp(area, area + 4096); }
+        };
+        for (int what = 0; what < 4; ++what) {
+            static const char *WN[4] = {"ostream << S(long)", "wostream << S(long)", "writef(ostream, {}{>300}, text, 7)", "writef(wostream, {} {}, long text, 1.5)"};
+            g_scn.push_back(Scenario{vf::strf("fixed-array streambuf, exceptions(badbit | failbit): %s", WN[what]), [=](vf::Outcome &oc) {
+                                         static NarX nb;
+                                         static WidX wb;
+                                         static std::ostream nos(&nb);
+                                         static std::wostream wos(&wb);
+                                         new (&nb) NarX();
+                                         new (&wb) WidX();
+                                         nos.exceptions(std::ios_base::goodbit);
+                                         wos.exceptions(std::ios_base::goodbit);
+                                         nos.clear();
+                                         wos.clear();
+                                         nos.exceptions(std::ios_base::badbit | std::ios_base::failbit);
+                                         wos.exceptions(std::ios_base::badbit | std::ios_base::failbit);
+                                         oc = vf::guard([&] {
+                                             switch (what) {
+                                             case 0: LIB(nos << S::from_validated(u8long.data(), u8long.size())); break;
+                                             case 1: LIB(wos << S::from_validated(u8long.data(), u8long.size())); break;
+                                             case 2: LIB(ST::writef(nos, "{}{>300}", u8long.c_str(), 7)); break;
+                                             default: LIB(ST::writef(wos, "{} {}", u8long.c_str(), 1.5)); break;
+                                             }
+                                         });
+                                         return std::string();
+                                     }});
+        }
+    }
     // stream insertion with the stream at every fill level just below a capacity boundary (sign / first piece fits, the rest
     // needs the growth that fails)
     for (size_t cap : {size_t(256), size_t(512)})
